@@ -107,6 +107,13 @@ type c18Transform struct {
 }
 
 func c18Layout(r *Rng, tp *tokProg) string {
+	body := c18LayoutBody(r, tp)
+	// how the text ends is layout too: no final newline, a comment as the very last bytes, blanks
+	body = strings.TrimSuffix(body, "\n")
+	return body + []string{"\n", "", " /* tail */", "/* tail */", "\n/* tail\n*/", " // tail", "//", "\t", "\r\n", "\n\n\n", " /**/"}[r.Intn(11)]
+}
+
+func c18LayoutBody(r *Rng, tp *tokProg) string {
 	return tp.render(func(i int, mayBreak bool) string {
 		var b strings.Builder
 		n := 1 + r.Intn(3)
@@ -218,7 +225,11 @@ func c18Transforms() []c18Transform {
 			back := map[string]string{}
 			for i, n := range names {
 				var nn string
-				switch r.Intn(3) {
+				switch r.Intn(5) {
+				case 3:
+					nn = fmt.Sprintf("_zq%d_%d", i, r.Intn(90)) // leading underscore
+				case 4:
+					nn = fmt.Sprintf("__%d", i*97+r.Intn(90)) // underscores and digits only
 				case 0:
 					nn = fmt.Sprintf("zq%dx%d", i, r.Intn(90))
 				case 1:
